@@ -25,6 +25,7 @@ type c25 struct {
 	sReqs     []*Req
 	oReqs     []*Req
 	oDags     []*DAG
+	sHook     string   // what the responder's request hook does for the stalled peer's requests: accept | ext
 	oHook     []string // per other-request: accept | ext | pause | reject | update
 	descr     string
 	actions   []*Event
@@ -91,6 +92,7 @@ func (s *c25) Build(w *World) {
 		}
 	}
 	sHook := []string{"accept", "ext"}[t.Draw(2)]
+	s.sHook = sHook
 	nO := 2 + t.Draw(4)
 	for i := 0; i < nO; i++ {
 		d := GenDAG(t, GenCfg{MaxBlocks: 2 + t.Draw(6), MaxDepth: 1 + t.Draw(3), BlockPad: 10 + i})
@@ -298,6 +300,11 @@ func (s *c25) Final(w *World) *Violation {
 			sig := "other-peer-starved"
 			if strings.Contains(site, "AllocateAndBuildMessage") || strings.Contains(site, "Transaction") {
 				sig += ":loop-blocked:" + site
+				if s.sHook == "ext" {
+					// the input class of the recorded finding: the loop reserves memory for
+					// extension data the request hook sends with the stalled peer's new request
+					sig += ":request-hook-sends-extension-to-stalled-peer"
+				}
 			} else {
 				sig += ":loop-idle"
 			}
